@@ -78,41 +78,55 @@ theorem resolvesAll_ok (sch : List Tm) (e : Tm) (w : String) (h : resolvesAll sc
   | none => simp [hr] at h
   | some r => exact ⟨r, rfl, resolve_bounded sch e r hr⟩
 
+/-- Every obligation of an accepted arm resolves, to in-range indices. -/
+theorem obligationsOk_ok (w : String) (obl : List (List Tm × Tm)) (h : obligationsOk w obl = .ok) :
+    ∀ p ∈ obl, ∃ r, resolve p.1 p.2 = some r ∧ r.bounded p.1.length = true := by
+  induction obl with
+  | nil => intro p hp; cases hp
+  | cons q rest ih =>
+    obtain ⟨sch, e⟩ := q
+    simp only [obligationsOk] at h
+    obtain ⟨h1, h2⟩ := Verdict.and_ok _ _ h
+    intro p hp
+    rcases List.mem_cons.mp hp with rfl | hp'
+    · exact resolvesAll_ok _ _ _ h1
+    · exact ih h2 p hp'
+
 /-- `wf_build` for the unary operators: a plan the checker accepts has an accepted child and
-expressions that resolve to in-range column indices. -/
+expressions that resolve to in-range column indices (which expression against which input is
+read from the builder's source: `Gen/BuilderArms.lean`). -/
 theorem check_filter_ok (e c : Tm) (h : check (.node .filter [e, c]) = .ok) :
     check c = .ok ∧ ∃ r, resolve (schema c) e = some r ∧ r.bounded (schema c).length = true := by
   simp only [check] at h
   obtain ⟨h1, h2⟩ := Verdict.and_ok _ _ h
-  exact ⟨h1, resolvesAll_ok _ _ _ h2⟩
+  exact ⟨h1, obligationsOk_ok _ _ h2 (schema c, e) (by simp [resolveObligations])⟩
 
 theorem check_proj_ok (es c : Tm) (h : check (.node .proj [es, c]) = .ok) :
     check c = .ok ∧ ∃ r, resolve (schema c) es = some r ∧ r.bounded (schema c).length = true := by
   simp only [check] at h
   obtain ⟨h1, h2⟩ := Verdict.and_ok _ _ h
-  exact ⟨h1, resolvesAll_ok _ _ _ h2⟩
+  exact ⟨h1, obligationsOk_ok _ _ h2 (schema c, es) (by simp [resolveObligations])⟩
 
 theorem check_order_ok (ks c : Tm) (h : check (.node .order [ks, c]) = .ok) :
     check c = .ok ∧ ∃ r, resolve (schema c) ks = some r ∧ r.bounded (schema c).length = true := by
   simp only [check] at h
   obtain ⟨h1, h2⟩ := Verdict.and_ok _ _ h
-  exact ⟨h1, resolvesAll_ok _ _ _ h2⟩
+  exact ⟨h1, obligationsOk_ok _ _ h2 (schema c, ks) (by simp [resolveObligations])⟩
 
 theorem check_hashagg_ok (ks as c : Tm) (h : check (.node .hashagg [ks, as, c]) = .ok) :
     check c = .ok ∧ (∃ r, resolve (schema c) ks = some r) ∧ (∃ r, resolve (schema c) as = some r) := by
   simp only [check] at h
-  obtain ⟨h12, h3⟩ := Verdict.and_ok _ _ h
-  obtain ⟨h1, h2⟩ := Verdict.and_ok _ _ h12
-  obtain ⟨r2, hr2, _⟩ := resolvesAll_ok _ _ _ h2
-  obtain ⟨r3, hr3, _⟩ := resolvesAll_ok _ _ _ h3
+  obtain ⟨h1, h2⟩ := Verdict.and_ok _ _ h
+  obtain ⟨r2, hr2, _⟩ := obligationsOk_ok _ _ h2 (schema c, ks) (by simp [resolveObligations])
+  obtain ⟨r3, hr3, _⟩ := obligationsOk_ok _ _ h2 (schema c, as) (by simp [resolveObligations])
   exact ⟨h1, ⟨r2, hr2⟩, ⟨r3, hr3⟩⟩
 
-/-- An accepted nested-loop join has a join type the executor implements (every one of the six
-since `fix:` 7d07810; an unknown type atom is rejected), both inputs are accepted and the
-condition resolves over the two schemas. -/
+/-- An accepted nested-loop join has a join type the builder has an executor for (the list is read
+from the source: all six since `fix:` 7d07810), both inputs are accepted and the condition
+resolves over the two schemas. -/
 theorem check_join_ok (t on l r : Tm) (h : check (.node .join [t, on, l, r]) = .ok) :
     check l = .ok ∧ check r = .ok ∧ (∃ x, resolve (schema l ++ schema r) on = some x) ∧
-      (∃ jt, joinType? t = some jt) := by
+      (∃ jt, joinType? t = some jt ∧ jt ∈ nlJoinTypes) := by
   simp only [check] at h
   cases ht : joinType? t with
   | none =>
@@ -120,22 +134,51 @@ theorem check_join_ok (t on l r : Tm) (h : check (.node .join [t, on, l, r]) = .
     have := (Verdict.and_ok _ _ h).2; cases this
   | some jt =>
     simp only [ht] at h
-    obtain ⟨h12, h3⟩ := Verdict.and_ok _ _ h
-    obtain ⟨h1, h2⟩ := Verdict.and_ok _ _ h12
-    obtain ⟨x, hx, _⟩ := resolvesAll_ok _ _ _ h3
-    exact ⟨h1, h2, ⟨x, hx⟩, ⟨jt, rfl⟩⟩
+    by_cases hj : nlJoinTypes.contains jt = true
+    · simp only [hj, if_true] at h
+      obtain ⟨h12, h3⟩ := Verdict.and_ok _ _ h
+      obtain ⟨h1, h2⟩ := Verdict.and_ok _ _ h12
+      obtain ⟨x, hx, _⟩ := obligationsOk_ok _ _ h3 (schema l ++ schema r, on) (by simp [resolveObligations])
+      exact ⟨h1, h2, ⟨x, hx⟩, ⟨jt, rfl, by simpa using hj⟩⟩
+    · simp only [hj] at h
+      have := (Verdict.and_ok _ _ h).2; cases this
 
-/-- An accepted hash join with an outer/inner type has residual condition `true`. -/
+/-- An accepted hash join with an inner / outer type has residual condition `true` (the builder
+asserts it: `hashJoinResidualMustBeTrue`, read from the source). -/
 theorem check_hashjoin_residual (t cond lk rk l r : Tm) (jt : JT) (ht : joinType? t = some jt)
     (hjt : jt ≠ .semi ∧ jt ≠ .anti) (h : check (.node .hashjoin [t, cond, lk, rk, l, r]) = .ok) :
     isTrue cond = true := by
   simp only [check, ht] at h
   have hn : ¬ (jt = .semi ∨ jt = .anti) := by intro hc; cases hc <;> simp_all
-  simp only [hn, if_false] at h
-  by_cases hc : isTrue cond = true
-  · exact hc
-  · simp only [hc] at h
+  by_cases hty : (!hashJoinTypes.contains jt) = true
+  · simp only [hty, if_true] at h
     have := (Verdict.and_ok _ _ h).2; cases this
+  · simp only [hty, hn, if_false] at h
+    by_cases hc : isTrue cond = true
+    · exact hc
+    · have hres := (Verdict.and_ok _ _ h).2
+      simp [hashJoinResidualMustBeTrue, hc] at hres
+
+/-- An accepted merge join is an inner or outer join (no semi / anti merge join exists) with a
+`true` residual. -/
+theorem check_mergejoin_ok (t cond lk rk l r : Tm) (h : check (.node .mergejoin [t, cond, lk, rk, l, r]) = .ok) :
+    (∃ jt, joinType? t = some jt ∧ jt ∈ mergeJoinTypes) ∧ isTrue cond = true := by
+  simp only [check] at h
+  cases ht : joinType? t with
+  | none =>
+    simp only [ht] at h
+    have := (Verdict.and_ok _ _ h).2; cases this
+  | some jt =>
+    simp only [ht] at h
+    by_cases hty : (!mergeJoinTypes.contains jt) = true
+    · simp only [hty, if_true] at h
+      have := (Verdict.and_ok _ _ h).2; cases this
+    · simp only [hty] at h
+      refine ⟨⟨jt, rfl, by simpa using hty⟩, ?_⟩
+      by_cases hc : isTrue cond = true
+      · exact hc
+      · have hres := (Verdict.and_ok _ _ h).2
+        simp [mergeJoinResidualMustBeTrue, hc] at hres
 
 /-- No accepted plan contains an `apply` at the root (the executor has none). -/
 theorem check_apply (args : List Tm) : check (.node .apply args) ≠ .ok := by
